@@ -92,7 +92,7 @@ Definition ok_step (s : mstate) (ws : list nat) (a : mstep) : bool :=
   end.
 Definition macc (s : mstate) (a : mstep) : list call :=
   match a with
-  | MCall c => match route (m_inner s) c with (None, ps) => map replay_call ps | _ => [] end
+  | MCall c => match route (m_inner s) c with (None, ps) => if rejects c then [] else map replay_call ps | _ => [] end
   | _ => []
   end.
 
@@ -109,6 +109,7 @@ Proof.
   destruct a as [c|w|w|w|w|w|n]; cbn [StorageOutboxOwners.step_m macc]; try rewrite app_nil_r.
   - (* client call *)
     destruct (route (m_inner s) c) as [[cl|] ps]; [rewrite app_nil_r; exact I|].
+    destruct (rejects c); [rewrite app_nil_r; exact I|].
     pose proof (menqueue_spec ps (m_queue s) (m_next s)) as (A & HB & [new C]).
     destruct (menqueue (m_queue s) (m_next s) ps) as [q' n']. cbn [fst snd] in *.
     split; cbn [m_inner m_queue m_now m_next m_workers]; auto.
